@@ -277,19 +277,63 @@ Section Tree.
       rewrite forallb_map'. exact E2.
   Qed.
 
-  (* ---------------------------------------------------------------- one object *)
-  Lemma den_obj : forall n cl o qn xsi,
-    wfr cl -> fits n cl o = true ->
-    den (add_xsi_g xsi (gobj n qn o)) = [add_xsi_e xsi (eobj n qn o)]
-    /\ attrs_present (item_of c (add_xsi_g xsi (gobj n qn o))) = true.
+  (* ---------------------------------------------------------------- content *)
+  (* kids the specification reads something from count as content for the writer *)
+  Lemma content_of_den ks : flat_map denote ks <> [] -> existsb kid_content ks = true.
   Proof.
-    induction n as [|n IH]; intros cl o qn xsi Hwf Hfit; [discriminate|].
+    induction ks as [|k r IH]; [intros H; exfalso; apply H; reflexivity|].
+    cbn [flat_map existsb]. intros H. destruct k as [v|q ats kk]; [|reflexivity].
+    cbn [kid_content denote] in *. destruct (atoms_of_value v) as [l|] eqn:E.
+    - assert (Hn : value_none v = false).
+      { destruct (value_none v) eqn:Hn; [|reflexivity]. apply atoms_of_value_none in Hn. congruence. }
+      rewrite Hn. reflexivity.
+    - cbn [app] in H. rewrite (IH H). apply orb_true_r.
+  Qed.
+
+  Lemma e_items_nonempty rec var x : v_is KText var = false -> occ var x <> [] -> x <> VNone ->
+    e_items c u rec var x <> [].
+  Proof.
+    intros Hk Ho Hx. unfold RoundtripGen.e_items, occ in *. rewrite Hk.
+    destruct x as [|p|tt l|cl fs|q0 tx tl at0 ch|q0 v0 ty|mm]; [congruence|..];
+      destruct (v_tokens_factory var); try discriminate.
+    - destruct l as [|y l']; [exfalso; apply Ho; reflexivity|]. destruct y; discriminate.
+    - destruct l; [exfalso; apply Ho; reflexivity|discriminate].
+  Qed.
+
+  Lemma e_wrap_nonempty var l : l <> [] -> e_wrap var l <> [].
+  Proof. intros H. unfold RoundtripGen.e_wrap. destruct (v_wrapper_qname var) as [[|ch w]|]; try exact H; discriminate. Qed.
+
+  Lemma filter_nil_last (eats : list (XmlNs.qname * list atom)) a :
+    (forall x, In x eats -> fst x <> q_xsi_nil) ->
+    nil_filter true (eats ++ [(q_xsi_nil, a)]) = eats.
+  Proof.
+    intros H. unfold nil_filter. rewrite filter_app. cbn [filter fst].
+    assert (Eq : qname_eqb q_xsi_nil q_xsi_nil = true) by (vm_compute; reflexivity).
+    rewrite Eq. cbn [negb]. rewrite app_nil_r.
+    induction eats as [|x r IH]; [reflexivity|]. cbn [filter].
+    rewrite (qname_eqb_neq (fst x) q_xsi_nil (H x (or_introl eq_refl))). cbn [negb]. f_equal.
+    apply IH. intros y Hy. apply H. right; exact Hy.
+  Qed.
+
+  Definition nil_attr_b (b : bool) : list (XmlNs.qname * list atom) :=
+    if b then [(q_xsi_nil, [AText EventGen.TRUE_STR])] else [].
+
+  (* ---------------------------------------------------------------- one object *)
+  (* b: the serializer marks the element xsi:nil="true" (nillable field or class); the instance then has
+     content and the writer drops the mark *)
+  Lemma den_obj : forall n cl o qn xsi b,
+    wfr cl -> fits n cl o = true -> (b = false \/ has_content u o = true) ->
+    den (add_nil_g b (add_xsi_g xsi (gobj n qn o))) = [add_xsi_e xsi (eobj n qn o)]
+    /\ attrs_present (item_of c (add_nil_g b (add_xsi_g xsi (gobj n qn o)))) = true.
+  Proof.
+    induction n as [|n IH]; intros cl o qn xsi b Hwf Hfit Hb; [discriminate|].
     destruct (fits_inv c u ok pyspace n cl o Hfit) as [fs [m [-> [Hm [Hnames [Hfa [Hfe Hft]]]]]]].
     destruct (wfr_inv u cl Hwf) as [m' [Hm' [Hmc [Hwc Hnest]]]]. rewrite Hm in Hm'. inversion Hm'; subst m'. clear Hm'.
-    cbn [RoundtripGen.gobj RoundtripGen.eobj]. rewrite Hm. cbn [add_xsi_g add_xsi_e].
+    cbn [RoundtripGen.gobj RoundtripGen.eobj]. rewrite Hm. cbn [add_xsi_g add_xsi_e add_nil_g].
     set (q := match qn with Some ((_ :: _) as q) => q | _ => m_qname m end).
     set (gats0 := flat_map (fun var => g_attr c u ign var (field_of fs var)) (get_attribute_vars m)).
     set (gats := gats0 ++ xsi_attr_g xsi).
+    set (gnil := if b then [(XSI_NIL, WP (PStr EventGen.TRUE_STR))] else []).
     pose proof (class_pairs_fits c u ok _ _ cl fs m Hwc Hnames Hfe) as Hps.
     set (gks := flat_map (fun vv => g_field c u (gobj n) (fst vv) (snd vv)) (pairs cl fs m)).
     (* attributes *)
@@ -320,11 +364,11 @@ Section Tree.
         rewrite forallb_forall in Hall. specialize (Hall e He). apply andb_true_iff in Hall as [Hq _].
         apply str_eqb_eq in Hq. cbn beta. f_equal. exact Hq. }
       rewrite E. apply FinFun.Injective_map_NoDup; [|exact F10].
-      intros a b. apply split_qname_inj. }
+      intros a0 b0. apply split_qname_inj. }
     assert (Hnores : forall a, In a (flat_map (fun var => e_attr c u ign var (field_of fs var)) (get_attribute_vars m)) ->
                 fst a <> q_xsi_nil /\ fst a <> Bind.split_qname XSI_TYPE).
     { intros a Ha. apply in_flat_map in Ha as [var [Hvar Ha]].
-      destruct (Hkeys var Hvar) as [E|[b [E Hk]]]; rewrite E in Ha; [destruct Ha|]. destruct Ha as [<-|[]].
+      destruct (Hkeys var Hvar) as [E|[b1 [E Hk]]]; rewrite E in Ha; [destruct Ha|]. destruct Ha as [<-|[]].
       destruct (wf_class_avar m var Hwc Hvar) as [Hwa _]. destruct (wf_attr_inv var Hwa) as [_ [_ [_ [_ [Hr _]]]]].
       rewrite Hk. split.
       - rewrite <- split_xsi_nil. intros Es. apply split_qname_inj in Es.
@@ -341,9 +385,6 @@ Section Tree.
       destruct xsi as [[|ch xq]|]; cbn [xsi_attr_e] in Ha; [destruct Ha| |destruct Ha]. destruct Ha as [<-|[]].
       cbn [fst]. rewrite split_xsi_type. vm_compute. discriminate. }
     (* content *)
-    assert (Hkids : flat_map den gks = flat_map (fun vv => e_field c u (eobj n) (fst vv) (snd vv)) (pairs cl fs m)
-                    /\ forallb (fun k => attrs_present (item_of c k)) gks = true).
-    { unfold gks. rewrite flat_map_flat_map.
       assert (Hper : forall var x, In (var, x) (pairs cl fs m) ->
                 flat_map den (g_field c u (gobj n) var x) = e_field c u (eobj n) var x
                 /\ forallb (fun k => attrs_present (item_of c k)) (g_field c u (gobj n) var x) = true).
@@ -376,10 +417,20 @@ Section Tree.
             assert (Hobj : forall y, fits_item c u ok (fits n) var y = true ->
                       den (g_item c u (gobj n) var y) = [e_item c u (eobj n) var y]
                       /\ attrs_present (item_of c (g_item c u (gobj n) var y)) = true).
-            { intros y Hfy. destruct (fits_item_class c u ok _ var k y Htys Hfy) as [cl' [fs' [-> [[-> Hr]|[Hdok Hr]]]]].
-              - cbn [g_item e_item]. apply (IH k); [|exact Hr].
+            { intros y Hfy.
+              pose proof (fits_item_content c u ok _ var k y Htys Hfy) as Hcy.
+              destruct (fits_item_class c u ok _ var k y Htys Hfy) as [cl' [fs' [-> [[-> Hr]|[Hdok Hr]]]]].
+              - cbn [g_item e_item].
+                assert (Hby : (v_nillable var || cnil u (VObj k fs')) = false \/ has_content u (VObj k fs') = true).
+                { destruct (v_nillable var); [right; apply Hcy; reflexivity|].
+                  destruct (cnil u (VObj k fs')) eqn:Ec; [right; apply (fits_content c u ok _ _ _ _ Hr Ec)|left; reflexivity]. }
+                apply (IH k); [|exact Hr|exact Hby].
                 apply (Hnest _ var k Hine (or_introl eq_refl) Hcl).
-              - cbn [g_item e_item]. apply (IH cl'); [|exact Hr].
+              - cbn [g_item e_item].
+                assert (Hby : (v_nillable var || cnil u (VObj cl' fs')) = false \/ has_content u (VObj cl' fs') = true).
+                { destruct (v_nillable var); [right; apply Hcy; reflexivity|].
+                  destruct (cnil u (VObj cl' fs')) eqn:Ec; [right; apply (fits_content c u ok _ _ _ _ Hr Ec)|left; reflexivity]. }
+                apply (IH cl'); [|exact Hr|exact Hby].
                 destruct (derived_ok_inv c u ok var k cl' Hdok) as [Hne [Hsub [mk [mkd [t [Hmk _]]]]]].
                 apply (wfr_sub u cl m _ var k cl' Hwf Hm Hine (or_introl eq_refl) Hcl); [congruence|exact Hne|exact Hsub]. }
             destruct Hsrc as [Hw|[f0 [t0 [l0 [Hf0 [_ [_ [El Hil]]]]]]]]; cbn [fst snd] in *.
@@ -472,18 +523,97 @@ Section Tree.
               + apply andb_true_iff in Hft as [Hp _]. eapply es_leaf; exact Hp. }
           destruct x eqn:Ex; try congruence;
             (cbn [flat_map forallb]; rewrite app_nil_r; rewrite den_data; [split; reflexivity|apply Hsh; discriminate]). }
+    assert (Hkids : flat_map den gks = flat_map (fun vv => e_field c u (eobj n) (fst vv) (snd vv)) (pairs cl fs m)
+                    /\ forallb (fun k => attrs_present (item_of c k)) gks = true).
+    { unfold gks. rewrite flat_map_flat_map.
       split.
       - apply flat_map_ext_in. intros [var x] Hvar. apply (Hper var x Hvar).
       - rewrite forallb_forall. intros k Hk. apply in_flat_map in Hk as [[var x] [Hvar Hk]].
         destruct (Hper var x Hvar) as [_ Hall]. rewrite forallb_forall in Hall. apply Hall. exact Hk. }
     destruct Hkids as [Hk1 Hk2].
+    set (eats := flat_map (fun var => e_attr c u ign var (field_of fs var)) (get_attribute_vars m) ++ xsi_attr_e xsi) in *.
+    assert (Hrel2 : Forall2 attr_rel (map (fun a => (of_qname (fst a), of_wval c (snd a))) (gats ++ gnil)) (eats ++ nil_attr_b b)).
+    { rewrite map_app. apply Forall2_app; [exact Hrel|]. unfold gnil, nil_attr_b. destruct b; [|constructor].
+      constructor; [|constructor]. unfold attr_rel. cbn [fst snd map]. rewrite <- split_xsi_nil. repeat split. }
+    assert (Hnd2 : NoDup (map fst (eats ++ nil_attr_b b))).
+    { unfold nil_attr_b. destruct b; [|rewrite app_nil_r; exact Hnd].
+      rewrite map_app. apply NoDup_app_intro'; [exact Hnd|constructor; [intros []|constructor]|].
+      intros x Hx [<-|[]]. apply in_map_iff in Hx as [a [Ea Ha]]. exact (Hnonil a Ha Ea). }
+    (* content: the instance has content when the element is marked *)
+    assert (Hcont : b = true -> existsb kid_content (map (item_of c) gks) = true).
+    { intros ->. destruct Hb as [Hb|Hb]; [discriminate Hb|].
+      cbn [has_content] in Hb. rewrite Hm in Hb. apply existsb_exists in Hb as [var [Hvar Hem]].
+      assert (Hocc : occ var (field_of fs var) <> []).
+      { unfold emits in Hem. unfold occ. destruct (field_of fs var) as [| |tt l| | | |]; try (destruct (v_tokens_factory var); discriminate).
+        - rewrite Hem. discriminate.
+        - destruct l as [|y l']; [discriminate Hem|]. destruct (v_tokens_factory var); [destruct y|]; discriminate. }
+      rewrite <- (ps_sel _ _ _ _ Hps var Hvar) in Hocc.
+      assert (Hex : exists vv, In vv (pairs cl fs m) /\ same_var (fst vv) var = true /\ occ var (snd vv) <> []).
+      { clear - Hocc. unfold sel in Hocc. induction (pairs cl fs m) as [|vv r IHr]; [exfalso; apply Hocc; reflexivity|].
+        cbn [flat_map] in Hocc. destruct (same_var (fst vv) var) eqn:Es.
+        - destruct (occ var (snd vv)) eqn:Eo.
+          + cbn [app] in Hocc. destruct (IHr Hocc) as [w [Hw H]]. exists w. split; [right; exact Hw|exact H].
+          + exists vv. split; [left; reflexivity|]. split; [exact Es|]. rewrite Eo. discriminate.
+        - cbn [app] in Hocc. destruct (IHr Hocc) as [w [Hw H]]. exists w. split; [right; exact Hw|exact H]. }
+      destruct Hex as [[var' x] [Hin [Hsv Hox]]]. cbn [fst snd] in Hsv, Hox.
+      destruct (ps_src _ _ _ _ Hps _ Hin) as [Hvar' [Hok Hsrc]]. cbn [fst snd] in Hvar', Hsrc.
+      unfold okval in Hok. cbn [fst snd] in Hok.
+      assert (var' = var).
+      { apply (nodup_map_inj v_index (get_element_vars m)); [eapply evars_indices_nodup; exact Hwc|exact Hvar'|exact Hvar|].
+        unfold same_var in Hsv. apply N.eqb_eq in Hsv. exact Hsv. }
+      subst var'. clear Hsv.
+      assert (Hsub : existsb kid_content (map (item_of c) (g_field c u (gobj n) var x)) = true).
+      { destruct (wf_class_evar m var Hwc Hvar) as [[Hwe Hine]|[Htx [Hwt Hnoe]]].
+        - apply content_of_den. rewrite flat_map_map. fold den.
+          destruct (Hper var x Hin) as [Hper' _]. rewrite Hper'.
+          destruct (wf_elem_inv var Hwe) as [[_ [Hkt _]] _].
+          unfold RoundtripGen.e_field.
+          assert (Hcase : x = VNone \/ x <> VNone) by (destruct x; [left; reflexivity|right; discriminate..]).
+          destruct Hcase as [->|Hxn].
+          + destruct Hok as [Hok|Hok]; [congruence|]. rewrite Hok. apply e_wrap_nonempty.
+            cbn [RoundtripGen.e_items]. rewrite Hok. discriminate.
+          + assert (Hne : e_wrap var (e_items c u (eobj n) var x) <> [])
+              by (apply e_wrap_nonempty; apply (e_items_nonempty _ var x Hkt Hox Hxn)).
+            destruct x; [congruence|exact Hne..].
+        - (* the Text field *)
+          destruct (wf_text_inv var Hwt) as [Hwtk [Hwt0 [t [Htys Hwtd]]]].
+          assert (Hxe : x = field_of fs var).
+          { destruct Hsrc as [Hw|[f1 [t1 [l1 [Hf1 _]]]]]; [exact Hw|]. cbn [fst] in Hf1.
+            rewrite (wf_text_nofactory var Hwt) in Hf1. discriminate Hf1. }
+          assert (Hxn : x <> VNone).
+          { destruct Hok as [Hok|Hok]; [exact Hok|]. rewrite (wf_text_nonil var Hwt) in Hok. discriminate Hok. }
+          pose proof Hft as Hft'. rewrite Htx in Hft'. rewrite <- Hxe in Hft'. unfold Fits.fits_text, vtype in Hft'. rewrite Htys in Hft'.
+          assert (Hsh : enc_shape (v_format var) x).
+          { destruct (v_tokens_factory var).
+            - destruct x as [| |tt l| | | |]; try discriminate Hft'. apply andb_true_iff in Hft' as [_ Htk].
+              eapply es_tokens; exact Htk.
+            - destruct x as [|p| | | | |]; try discriminate Hft'; [congruence|].
+              destruct (ptype_eqb t TQName) eqn:Etq.
+              + unfold qleaf_ok in Hft'. apply andb_true_iff in Hft' as [_ Hq]. destruct p as [| | | | | |q1| |]; try discriminate Hq.
+                apply es_qname.
+              + apply andb_true_iff in Hft' as [Hp _]. eapply es_leaf; exact Hp. }
+          rewrite (g_field_some c u (gobj n) var x Hxn). unfold g_wrap. rewrite (wf_text_nowrap var Hwt).
+          unfold g_items. rewrite Hwtk.
+          assert (Eg : match x with VNone => (if v_nillable var then [g_prim c u var VNone] else []) | _ => [BData (enc (v_format var) x)] end
+                       = [BData (enc (v_format var) x)]) by (destruct x; [congruence|reflexivity..]).
+          rewrite Eg. cbn [map item_of existsb kid_content]. rewrite (of_wval_enc _ _ Hsh), orb_false_r.
+          destruct Hsh as [t' p Hp|t' tf l Hl|q1]; [destruct p; reflexivity| |reflexivity].
+          unfold occ in Hox. destruct (v_tokens_factory var); destruct l; try reflexivity; exfalso; apply Hox; reflexivity. }
+      apply existsb_exists in Hsub as [k [Hk Hkc]]. apply existsb_exists. exists k. split; [|exact Hkc].
+      apply in_map_iff in Hk as [k0 [<- Hk0]]. apply in_map. unfold gks. apply in_flat_map. exists (var, x). split; [exact Hin|exact Hk0]. }
     split.
     - unfold den. cbn [item_of denote].
-      rewrite (spec_attrs_rel _ _ [] Hrel Hnd). cbn [app].
-      rewrite (nil_filter_none _ _ Hnonil). f_equal. f_equal.
+      fold gnil. fold gats.
+      rewrite (spec_attrs_rel _ _ [] Hrel2 Hnd2). cbn [app].
+      assert (Ef : nil_filter (existsb kid_content (map (item_of c) gks)) (eats ++ nil_attr_b b) = eats).
+      { destruct b.
+        - rewrite (Hcont eq_refl). apply filter_nil_last. exact Hnonil.
+        - unfold nil_attr_b. rewrite app_nil_r. apply (nil_filter_none _ _ Hnonil). }
+      rewrite Ef. f_equal. f_equal.
       rewrite flat_map_map. exact Hk1.
     - unfold attrs_present, t_attrs_present. cbn [item_of all_nodes].
-      rewrite (attrs_present_rel _ _ Hrel). cbn [andb].
+      fold gnil. fold gats.
+      rewrite (attrs_present_rel _ _ Hrel2). cbn [andb].
       rewrite forallb_map'. exact Hk2.
   Qed.
 
@@ -499,12 +629,15 @@ Section Tree.
 
   Theorem events_mean : forall n cl o,
     wfr cl -> fits n cl o = true ->
-    itree_of_events (map (of_wevent c) (bflat (gobj n None o))) = Some (eobj n None o).
+    itree_of_events (map (of_wevent c) (bflat (add_nil_g (cnil u o) (gobj n None o)))) = Some (eobj n None o).
   Proof.
-    intros n cl o Hwf Hfit. destruct (den_obj n cl o None None Hwf Hfit) as [Hd Hp].
+    intros n cl o Hwf Hfit.
+    assert (Hb : cnil u o = false \/ has_content u o = true).
+    { destruct (cnil u o) eqn:Ec; [right; apply (fits_content c u ok pyspace _ _ _ Hfit Ec)|left; reflexivity]. }
+    destruct (den_obj n cl o None None (cnil u o) Hwf Hfit Hb) as [Hd Hp].
     rewrite add_xsi_g_none, add_xsi_e_none in Hd. rewrite add_xsi_g_none in Hp.
     rewrite flatten_item_of. apply itree_of_denote; [|exact Hp|exact Hd].
     destruct n; [discriminate|]. destruct (fits_inv c u ok pyspace n cl o Hfit) as [fs [m [-> [Hm _]]]].
-    cbn [RoundtripGen.gobj]. rewrite Hm. exact I.
+    cbn [RoundtripGen.gobj add_nil_g]. rewrite Hm. exact I.
   Qed.
 End Tree.
